@@ -54,9 +54,16 @@ def replay(case):
     for thr in (0.0, 1e-10):
         if thr == 0.0 and not (fullrank and all(r <= min(X.shape) for r in x.ranks)):
             continue
-        for flags in ('default', 'pre_l', 'pre_r', 'pre_lr'):
+        for flags in ('default', 'pre_l', 'pre_r', 'pre_lr', 'scaled'):
             xx = x.copy()
             kw = {}
+            if flags == 'scaled':
+                # the same tensor in a representation that carries its scale in the first core (x 2^44) and a small
+                # factor in the snapshot core (x 2^-44): relative cuts must not notice
+                if x.order < 2:
+                    continue
+                xx.cores[0] = xx.cores[0] * 2.0 ** 44
+                xx.cores[-1] = xx.cores[-1] * 2.0 ** -44
             if flags == 'pre_l':
                 xx = xx.ortho_left(end_index=x.order - 3) if x.order >= 3 else xx
                 kw['ortho_l'] = False
